@@ -34,6 +34,7 @@ type chainCase struct {
 	Time    uint64 // time signed of envelope 0; envelope i is signed at Time + i
 	Fault   string // "", drop, dup, swap, rekey
 	At      int    // envelope the fault applies to (reduced modulo what the fault needs)
+	NotAuth bool   // set by the generator only, when the finding tsig-rcode-notauth is not live: envelopes keep an RCODE NOTAUTH
 }
 
 func checkChain(c chainCase) error {
@@ -56,8 +57,10 @@ func checkChain(c chainCase) error {
 			sec = base64.StdEncoding.EncodeToString(c.Secret2)
 		}
 		m := c.Msgs[i].Build()
-		if m.Rcode&0xF == dns.RcodeNotAuth {
-			m.Rcode = dns.RcodeSuccess // see checkTsig: NOTAUTH is reported as ErrAuth by design
+		if m.Rcode&0xF == dns.RcodeNotAuth && !c.NotAuth {
+			m.Rcode = dns.RcodeSuccess // known finding tsig-rcode-notauth (see checkTsig): NOTAUTH is reported as ErrAuth whatever the MAC
+		} else if m.Rcode&0xF == dns.RcodeNotAuth {
+			pbt.Class("envelope-with-rcode-notauth")
 		}
 		m.SetTsig(c.KeyName, c.Alg, c.Fudge, int64(c.Time)+int64(i))
 		out, mac, err := dns.TsigGenerate(m, sec, hex.EncodeToString(prev), i > 0)
@@ -138,6 +141,7 @@ func genChain(t *rapid.T) chainCase {
 	c.Time = rapid.Uint64Range(uint64(c.Fudge)+17, 1<<40).Draw(t, "time")
 	c.Fault = rapid.SampledFrom([]string{"", "", "drop", "dup", "swap", "rekey"}).Draw(t, "fault")
 	c.At = rapid.IntRange(0, 7).Draw(t, "at")
+	c.NotAuth = keepNotAuth(c.Msgs)
 	return c
 }
 
@@ -190,6 +194,7 @@ type longCase struct {
 	Fudge   uint16
 	Time    uint64
 	AlgName string // the provider's algorithm name as the caller writes it; "" = long-mac.example.
+	NotAuth bool   // set by the generator only, when the finding tsig-rcode-notauth is not live: envelopes keep an RCODE NOTAUTH
 }
 
 func checkLongMAC(c longCase) error {
@@ -216,8 +221,10 @@ func checkLongMAC(c longCase) error {
 	prev := c.ReqMAC
 	for i := 0; i < n; i++ {
 		spec := c.Msgs[i]
-		if spec.Rcode&0xF == dns.RcodeNotAuth {
-			spec.Rcode = 0 // NOTAUTH is reported as ErrAuth by design, see checkTsig
+		if spec.Rcode&0xF == dns.RcodeNotAuth && !c.NotAuth {
+			spec.Rcode = 0 // known finding tsig-rcode-notauth (see checkTsig): NOTAUTH is reported as ErrAuth whatever the MAC
+		} else if spec.Rcode&0xF == dns.RcodeNotAuth {
+			pbt.Class("envelope-with-rcode-notauth")
 		}
 		m := spec.Build()
 		packed, perr := spec.Build().Pack()
@@ -295,7 +302,22 @@ func genLongMAC(t *rapid.T) longCase {
 	}
 	c.Fudge = rapid.Uint16Range(16, 65535).Draw(t, "fudge")
 	c.Time = rapid.Uint64Range(uint64(c.Fudge)+17, 1<<40).Draw(t, "time")
+	c.NotAuth = keepNotAuth(c.Msgs)
 	return c
+}
+
+// keepNotAuth: envelopes with RCODE NOTAUTH stay as generated unless the known finding
+// tsig-rcode-notauth reproduces; then the RCODE is replaced in the check (counted per message).
+func keepNotAuth(msgs []msgspec.Spec) bool {
+	if !pbt.Known(findNotAuth) {
+		return true
+	}
+	for _, m := range msgs {
+		if m.Rcode&0xF == dns.RcodeNotAuth {
+			pbt.Excluded(findNotAuth)
+		}
+	}
+	return false
 }
 
 func init() {
